@@ -982,7 +982,7 @@ func families(tier string) []fw.Family {
 		fs = append(fs, verticalFamily(2, n-1, true))
 	}
 	fs = append(fs, verticalFamily(3, n-1, true))
-	fs = append(fs, breaksFamily())
+	fs = append(fs, breaksFamily(), textLineFamily())
 	if only := os.Getenv("C16_ONLY"); only != "" { // development aid
 		var sel []fw.Family
 		for _, f := range fs {
